@@ -413,6 +413,18 @@ bool Plan::RefreshDyndepDependents(DependencyScan* scan,
     UnmarkDependents(node, &dependents);
   }
 
+  // The dirty flags of the dependents were computed by a scan that lacked the
+  // dyndep information (e.g. a 'restat' that comes from the dyndep file) and
+  // RecomputeDirty only ever sets them: clear them so that the re-scan below
+  // computes them afresh.  None of these edges can have been started, their
+  // dyndep file was not ready.
+  for (set<Node*>::iterator i = dependents.begin();
+       i != dependents.end(); ++i) {
+    map<Edge*, Want>::iterator want_e = want_.find((*i)->in_edge());
+    if (want_e != want_.end() && want_e->second != kWantToFinish)
+      (*i)->set_dirty(false);
+  }
+
   // Update the dirty state of all dependents and check if their edges
   // have become wanted.
   for (set<Node*>::iterator i = dependents.begin();
@@ -438,21 +450,17 @@ bool Plan::RefreshDyndepDependents(DependencyScan* scan,
         }
       }
     }
-    if (!n->dirty())
-      continue;
 
     Edge* edge = n->in_edge();
     assert(edge);
     map<Edge*, Want>::iterator want_e = want_.find(edge);
     assert(want_e != want_.end());
 
-    if (edge->outputs_ready()) {
-      // The node was marked dirty by a scan that lacked the dyndep information
-      // (e.g. its 'restat'); the re-scan with it found the edge clean, so the
-      // flag is stale.  Such an edge cannot have been started: its dyndep file
-      // was not ready.  Stop wanting it and clean the node just as a restat
-      // does, or the edge would run while its dependents, seeing its outputs
-      // ready, run at the same time.
+    if (!n->dirty()) {
+      // With the dyndep information the edge is clean.  If the earlier scan
+      // wanted it, stop wanting it (as a restat does), or it would run for
+      // nothing - and, once RecomputeDirty has declared its outputs ready,
+      // at the same time as its dependents.
       if (want_e->second == kWantToStart) {
         want_e->second = kWantNothing;
         --wanted_edges_;
@@ -462,8 +470,6 @@ bool Plan::RefreshDyndepDependents(DependencyScan* scan,
             builder_->status_->EdgeRemovedFromPlan(edge);
         }
       }
-      if (!CleanNode(scan, n, err))
-        return false;
       continue;
     }
 
